@@ -205,7 +205,7 @@ func r04_2(c *Ctx, rule string) {
 				par := g.Parent()
 				k := 0
 				eng.Instrs(par, func(x ssa.Instruction) {
-					if mc, ok := x.(*ssa.MakeClosure); ok && mc.Fn == ssa.Value(g) {
+					if mc, ok := x.(*ssa.MakeClosure); ok && c.P.ClosureFn(mc) == g {
 						for _, r := range eng.Referrers(mc) {
 							if c.P.IsCallTo(r, "(*golang.org/x/sync/errgroup.Group).Go") && !eng.InCycle(r.Block()) {
 								k++
@@ -274,7 +274,7 @@ func r04_3(c *Ctx, rule string) {
 					return
 				}
 				if mc, ok := d.Call.Value.(*ssa.MakeClosure); ok {
-					f := mc.Fn.(*ssa.Function)
+					f := c.P.ClosureFn(mc)
 					sends := false
 					eng.Instrs(f, func(x ssa.Instruction) {
 						if c.sendsPacket(x, "PACKET_ERR") {
@@ -739,8 +739,8 @@ func r04_8(c *Ctx, rule string) {
 					if !hasCtx {
 						return
 					}
-					if d := eng.DefaultArm(sel); d != nil && (d == call.Block() || d.Dominates(call.Block())) {
-						ok = true
+					if d := eng.DefaultArm(sel); d != nil && (d == call.Block() || d.Dominates(call.Block()) || (len(d.Instrs) > 0 && eng.Dominates(d.Instrs[0], call))) {
+						ok = true // (the call may sit in a helper entered from the default arm)
 					}
 				})
 				c.R.Analysed(c.name(lit))
@@ -765,7 +765,7 @@ func r04_9(c *Ctx, rule string) {
 				return
 			}
 			if mc, ok := d.Call.Value.(*ssa.MakeClosure); ok {
-				f := mc.Fn.(*ssa.Function)
+				f := c.P.ClosureFn(mc)
 				if len(c.P.CallsTo(f, "field:fsutil.DiskWriter.cancel")) > 0 {
 					def, lit = d, f
 				}
